@@ -3,7 +3,7 @@ import ipaddress
 from harness.core import Prop
 from harness.props import socks_common as sc
 
-HOSTS = ['1.2.3.4', '0.0.0.7', '255.255.255.255', '10.0.1.0', '1.0.0.0', '255.255.255.0', '0.0.0.0', '172.16.0.0', '::1', '2001:db8::ff00:42:8329', '::ffff:1.2.3.4', '::ffff:0:0', '::', '64:ff9b::1.2.3.4', 'a', 'example.com',
+HOSTS = ['1.2.3.4', '0.0.0.7', '255.255.255.255', '10.0.1.0', '1.0.0.0', '255.255.255.0', '0.0.0.0', '172.16.0.0', '::1', 'fe80::1%eth0', 'fe80::dead:beef%3', '2001:db8::ff00:42:8329', '::ffff:1.2.3.4', '::ffff:0:0', '::', '64:ff9b::1.2.3.4', 'a', 'example.com',
          # host names that merely look like numbers (lenient address parsers read them as IPv4: they are names)
          '0x7f.0x1', '0x7f000001', '10.0.0.0x1', '0x1.0x2.0x3.0x4', '0x10', '1.2.3.4a', '127.0.0.1.example', '0300.0250.1.0x1', '1.2.3.0b1',
          'a-b_c.example', 'x' * 63 + '.' + 'y' * 63 + '.' + 'z' * 63 + '.' + 'w' * 58 + '.de', 'localhost.']
